@@ -126,7 +126,7 @@ def confirm_twice(prop, key, rec, rerun):
             sys.exit(2)
 
 
-def confirm_all(prop, items, workers=None):
+def confirm_all(prop, items, workers=None, fatal=True):
     """items: list of (key, record, rerun callable). Re-runs every case alone twice, in parallel; exit 2 if one does not
     fail identically both times."""
     import concurrent.futures as cf
@@ -136,10 +136,11 @@ def confirm_all(prop, items, workers=None):
         for attempt in (1, 2):
             rc, vs, err = rerun()
             if not any(same_record(v, rec) for v in vs):
-                return "%s: violation %s did not reproduce alone (attempt %d, rc=%s): harness bug\n%s" % (prop, key, attempt, rc, err[-800:])
+                return (key, "%s: violation %s did not reproduce alone (attempt %d, rc=%s): harness bug\n%s" % (prop, key, attempt, rc, err[-800:]))
         return None
     with cf.ThreadPoolExecutor(max_workers=workers or common.NCPU) as ex:
         bad = [r for r in ex.map(one, items) if r]
-    if bad:
-        common.log("\n".join(bad))
+    if bad and fatal:
+        common.log("\n".join(m for _, m in bad))
         sys.exit(2)
+    return bad
